@@ -1004,6 +1004,35 @@ func (lg *ledger) kindFact(cond ssa.Value, truth bool, subject ssa.Value, isType
 			}
 		}
 	}
+	// table[Kind(v)] for a constant array table [N]bool indexed by kind
+	if ld, isLd := cond.(*ssa.UnOp); isLd && ld.Op == token.MUL && !isType {
+		if ia, isIA := ld.X.(*ssa.IndexAddr); isIA {
+			if g, isG := ia.X.(*ssa.Global); isG && g.Pkg != nil {
+				if t := constTablesOf(g.Pkg)[g]; t != nil && t.isArray && !t.isSlice && isBasicKind(t.valType, types.Bool) {
+					idx := ia.Index
+					if cv, isConv := idx.(*ssa.Convert); isConv {
+						idx = cv.X
+					}
+					if recv, _, ok := reflectValueCall(idx, "Kind"); ok && lg.key(recv) == lg.key(subject) {
+						var set uint64
+						for i, k := range t.keys {
+							c, isC := t.vals[i].(*ssa.Const)
+							if !isC || c.Value == nil || c.Value.Kind() != constant.Bool || k.Kind() != constant.Int {
+								return 0, false
+							}
+							if n, exact := constant.Int64Val(k); exact && n >= 0 && n < 64 && constant.BoolVal(c.Value) {
+								set |= 1 << uint(n)
+							}
+						}
+						if truth {
+							return set, true
+						}
+						return ^uint64(0) &^ set, true
+					}
+				}
+			}
+		}
+	}
 	// slices.Contains(table, Kind(v)) for a constant table []reflect.Kind
 	if call, isCall := cond.(*ssa.Call); isCall && !isType && len(call.Call.Args) == 2 {
 		if pkg, name := staticCalleeName(call); pkg == "slices" && name == "Contains" {
@@ -2370,6 +2399,12 @@ func (lg *ledger) boundFacts(b *ssa.BasicBlock) (out []diffC) {
 			case *ssa.Call:
 				if n := pureCallName(x); n == "len" || n == "Len" || n == "Type.NumIn" || n == "cap" {
 					out = append(out, diffC{"0", lg.key(x), 0}) // >= 0
+				}
+				// a kind is one of reflect's constants: Invalid (0) .. UnsafePointer (26)
+				if _, _, isKind := reflectValueCall(x, "Kind"); isKind {
+					out = append(out, diffC{"0", lg.key(x), 0}, diffC{lg.key(x), "0", 26})
+				} else if _, _, isKind := reflectTypeInvoke(x, "Kind"); isKind {
+					out = append(out, diffC{"0", lg.key(x), 0}, diffC{lg.key(x), "0", 26})
 				}
 				if pkg, name := staticCalleeName(x); pkg == "unicode/utf8" && strings.HasPrefix(name, "RuneCount") {
 					out = append(out, diffC{"0", lg.key(x), 0}) // a count is >= 0
